@@ -948,6 +948,63 @@ def auto_discharge(F, s, cfg):
     return _auto_discharge(F, s, cfg)
 
 
+def lb_at(body, bb, t, depth=0):
+    """constant lower bound of an unsigned value tree at a site: constants, sums/products, casts, guards on every path
+    (incl. `x != 0`, `y < x`), and parity (`x.is_multiple_of(k)` on every path together with x >= 1 gives x >= k)"""
+    if depth > 8 or not isinstance(t, tuple):
+        return 0
+    c = const_eval(t)
+    if c is not None:
+        return c
+    g = guard_lb(body, bb, t) or 0
+    k = t[0]
+    v = 0
+    if k == "cast" and len(t) >= 3:
+        v = lb_at(body, bb, t[2], depth + 1)
+    elif k == "field" and t[2] == "0" and t[1][0] == "bin" and t[1][1].endswith("WithOverflow"):
+        v = lb_at(body, bb, ("bin", t[1][1].replace("WithOverflow", ""), t[1][2], t[1][3]), depth + 1)
+    elif k == "bin":
+        op = t[1].replace("Unchecked", "")
+        if op == "Add":
+            v = lb_at(body, bb, t[2], depth + 1) + lb_at(body, bb, t[3], depth + 1)
+        elif op == "Mul":
+            v = lb_at(body, bb, t[2], depth + 1) * lb_at(body, bb, t[3], depth + 1)
+        elif op == "Div":
+            d = const_eval(t[3])
+            if d:
+                v = lb_at(body, bb, t[2], depth + 1) // d
+    elif k == "phi":
+        vs = [lb_at(body, bb, a, depth + 1) for a in t[1] if isinstance(a, tuple)]
+        v = min(vs) if vs else 0
+    best = max(g, v)
+    if best >= 1 and _stable(t):
+        for _, cond, pol in _cmp_guards(body, bb):
+            c0, p0 = cond, pol
+            while c0[0] == "un" and c0[1] == "Not":
+                c0, p0 = c0[2], not p0
+            if p0 and c0[0] == "call" and c0[1].endswith("::is_multiple_of") and len(c0[2]) == 2 and _eq_mod_casts(c0[2][0], t):
+                kk = const_eval(c0[2][1])
+                if kk and kk > best:
+                    best = kk
+    return best
+
+
+def underflow_discharge(body, s):
+    """a - b cannot underflow: constants, a guard a >= b on every path, or lower bound of a >= upper bound of b"""
+    A, B = body.origin(s.ops[0]), body.origin(s.ops[1])
+    ca, cb = const_eval(A), const_eval(B)
+    if ca is not None and cb is not None:
+        return "constants %d - %d" % (ca, cb) if ca >= cb else None
+    for g, cond, pol in _cmp_guards(body, s.bb):
+        if implies_le(cond, pol, B, A):
+            return "guard %s (%s edge) at bb%d" % (fmt(cond, 80), pol, g)
+    la = lb_at(body, s.bb, A)
+    ub = tree_ub_at(body, s.bb, B)
+    if ub is not None and la >= ub:
+        return "minuend >= %d >= subtrahend (<= %d) on every path" % (la, ub)
+    return None
+
+
 def _contradictory_guards(body, site_bb):
     """the comparisons that hold on every path to the site are unsatisfiable for some stable value v
     (lower bound implied > upper bound implied): the site is unreachable.  e.g. `if n == 0 { return }` … `assert!(n > 0)`"""
@@ -1264,7 +1321,7 @@ def _tok_in(w, tk):
 # driver
 
 
-def check_entries(F, R, pid, entries, cfg, stop=None, classes=None, label=None):
+def check_entries(F, R, pid, entries, cfg, stop=None, classes=None, label=None, underflow_armed=None):
     """PANIC verdict for an entry set; records obligations/violations in R."""
     missing = [e for e in entries if not F.has_body(e)]
     for m in missing:
@@ -1287,7 +1344,21 @@ def check_entries(F, R, pid, entries, cfg, stop=None, classes=None, label=None):
             n_sites += 1
             by_class[s.cls] = by_class.get(s.cls, 0) + 1
             if s.cls == "overflow":
-                # informational in this template (see DESIGN §4 PANIC)
+                # informational in this template (see DESIGN §4 PANIC), except subtraction underflow in functions the
+                # property arms (`underflow_armed` regex): there the site must be discharged like any other
+                if not (underflow_armed and "Sub" in str(s.kind) and re.search(underflow_armed, s.fn)):
+                    continue
+                why = underflow_discharge(s.body, s)
+                by_class["underflow-armed"] = by_class.get("underflow-armed", 0) + 1
+                if why:
+                    R.ob("PANIC", s.key(), True, True, {"rule": "PANIC", "site": s.sig, "fn": s.fn, "loc": s.span.loc, "class": "underflow", "discharge": why})
+                else:
+                    R.ob("PANIC", s.key(), False, True)
+                    undis.append(s)
+                    R.violation("PANIC", s.key(), "subtraction `%s` in %s can underflow (panic in builds with overflow checks, wrap-around otherwise): "
+                                "no guard on every path implies minuend >= subtrahend" % (s.sig, short(s.fn)), s.span.loc,
+                                {"site": s.sig, "class": "underflow",
+                                 "dominating_conditions": [fmt(c, 140) + (" [true]" if p else " [false]") for _, c, p in _cmp_guards(s.body, s.bb)][:8]})
                 continue
             why = auto_discharge(F, s, cfg)
             if why:
